@@ -131,3 +131,55 @@ pub fn gen_c17(sink: &mut Sink, thorough: bool, seed: u64, debug: bool) {
     gen_solver::<BitSet8>(sink, "C17", thorough, seed, debug, if thorough { 100_000 } else { 6_000 });
     let _: BTreeMap<u8, u8> = BTreeMap::new();
 }
+
+/// C08 / C09: every NoSolution tree of a solver pass (before and after collapse) and synthetic DAGs
+pub fn gen_trees(sink: &mut Sink, prop: &str, thorough: bool, seed: u64, debug: bool) {
+    use crate::treeck::tree_tokens;
+    let mut rng = Rng::new(seed ^ 0x0808);
+    let versions = vec![1u32, 3, 5];
+    let n_cases = if thorough { 60_000 } else { 5_000 };
+    let mut regs: Vec<(Registry<Range<u32>>, String, u32, Strat)> = corpus::<Range<u32>>()
+        .into_iter()
+        .map(|(r, root, rv)| (r, root.to_string(), rv, Strat::NewestFewest))
+        .collect();
+    for _ in 0..n_cases {
+        let reg = random_registry::<Range<u32>>(&mut rng, &versions);
+        let rvs = reg.versions("root");
+        let rv = if rvs.is_empty() { 1 } else { rvs[rng.below(rvs.len() as u64) as usize] };
+        regs.push((reg, "root".into(), rv, random_strat(&mut rng)));
+    }
+    let mut n_trees = 0u64;
+    for (reg, root, rv, strat) in regs {
+        let run = run_resolve(&reg, &root, rv, &strat, &Fault::None);
+        if let Outcome::NoSolution(tree) = &run.outcome {
+            n_trees += 1;
+            let toks = tree_tokens(tree);
+            if prop == "C08" {
+                sink.push(crate::eval::eval_line(&format!("report|{}|-", toks)));
+                let mut t2 = tree.clone();
+                if std::panic::catch_unwind(std::panic::AssertUnwindSafe(|| t2.collapse_no_versions())).is_ok() {
+                    let mut c = crate::eval::eval_line(&format!("report|{}|{}", tree_tokens(&t2), reg.to_text()));
+                    c.tags.push("report_after_collapse");
+                    sink.push(c);
+                }
+            } else {
+                sink.push(crate::eval::eval_line(&format!("collapse|{}|{}|{}|{}", toks, reg.to_text(), root, rv)));
+            }
+        }
+    }
+    let n_syn = if thorough { 200_000 } else { 8_000 };
+    let mut made = 0u64;
+    for _ in 0..n_syn {
+        if let Some(t) = crate::report::synthetic_tree(&mut rng) {
+            made += 1;
+            let toks = tree_tokens(&t);
+            if prop == "C08" {
+                sink.push(crate::eval::eval_line(&format!("report|{}|-", toks)));
+            } else {
+                sink.push(crate::eval::eval_line(&format!("collapse|{}|-|root|1", toks)));
+            }
+        }
+    }
+    let _ = debug;
+    sink.notes.push(format!("{} NoSolution trees from solver runs, {} synthetic DAGs of sound resolution steps with arbitrary sharing", n_trees, made));
+}
